@@ -39,6 +39,18 @@ def main():
         rc, out = run(["/venv/bin/python", demo], cwd=wt, env=env)
         meta["demo_clean_rc"] = rc
         rc, out = run(["git", "-C", wt, "apply", patch])
+        if rc != 0:
+            rc, out = run(["git", "-C", wt, "apply", "--3way", patch])
+            meta["applied_with"] = "git apply --3way (the repository moved on since the patch was written)"
+            run(["git", "-C", wt, "reset", "-q"])
+        if rc != 0:
+            # last resort: the tree the patch was written against
+            base = os.environ.get("SEED_BASE", "6cdb13b")
+            run(["git", "-C", wt, "checkout", "-q", "--detach", base])
+            run(["git", "-C", wt, "checkout", "-q", "--", "."])
+            rc, out = run(["git", "-C", wt, "apply", patch])
+            meta["applied_with"] = "applied to the older tree %s it was written against (conflicts with a later fix commit)" % base
+            meta["repo_head"] = base
         meta["patch_applies"] = rc == 0
         if rc != 0:
             print("patch does not apply:", out[:300])
